@@ -33,22 +33,38 @@ def confirm(d: pathlib.Path):
         shutil.rmtree(scr, ignore_errors=True)
 
 
-def detect(d: pathlib.Path, props):
+def detect(d: pathlib.Path, props, in_repo=False):
+    """Run the checks against the change: on a scratch copy of /repo (default; PYVC_REPO) or, with --in-repo, by
+    `git -C /repo apply` followed by `git -C /repo checkout -- .` straight afterwards."""
     out = {}
-    if sh(["git", "-C", "/repo", "status", "--porcelain", "--untracked-files=no"]).stdout.strip():
-        raise SystemExit("/repo has uncommitted changes to tracked files; refusing")
-    ap = sh(["git", "-C", "/repo", "apply", str(d / "patch.diff")])
+    scr = None
+    if in_repo:
+        if sh(["git", "-C", "/repo", "status", "--porcelain", "--untracked-files=no"]).stdout.strip():
+            raise SystemExit("/repo has uncommitted changes to tracked files; refusing")
+        ap = sh(["git", "-C", "/repo", "apply", str(d / "patch.diff")])
+        env = dict(os.environ)
+    else:
+        scr = tempfile.mkdtemp(prefix="pyvc_seed.")
+        sh(["rsync", "-a", "--exclude", "/.git", "--exclude", "/output", "--exclude", "/outputs", "--exclude", "/None", "--exclude", "__pycache__", "/repo/", scr + "/"])
+        ap = sh(["patch", "-p1", "-s", "-i", str(d / "patch.diff")], cwd=scr)
+        env = {**os.environ, "PYVC_REPO": scr}
     if ap.returncode:
-        return {"apply_error": ap.stderr[-300:]}
+        if scr:
+            shutil.rmtree(scr, ignore_errors=True)
+        return {"apply_error": (ap.stderr + ap.stdout)[-300:]}
     try:
         for p in props:
-            r = sh(["python3-vt", "check.py", p, "--no-evidence"], cwd=str(HERE), timeout=3600)
+            r = sh(["python3-vt", "check.py", p, "--no-evidence"], cwd=str(HERE), timeout=3600, env=env)
             viol = sorted(set(re.findall(r"VIOLATION property=\S+ replay=\S*/([^/\s]+)\.json( no-failing-input-found)?", r.stdout)))
             errs = sorted(set(re.findall(r"replay\[error\]: (.*)", r.stdout)))
-            out[p] = {"exit": r.returncode, "replay_errors": [e[-200:] for e in errs][:5], "violations": [v[0] + (" (no native input)" if v[1] else "") for v in viol][:12],
+            out[p] = {"exit": r.returncode, "replay_errors": [e[-200:] for e in errs][:5],
+                      "violations": [v[0] + (" (no native input)" if v[1] else "") for v in viol][:12],
                       "undecided": len(re.findall(r"^UNDECIDED", r.stdout, re.M)), "summary": (r.stdout.strip().splitlines() or [""])[-2][:200]}
     finally:
-        sh(["git", "-C", "/repo", "checkout", "--", "."])
+        if in_repo:
+            sh(["git", "-C", "/repo", "checkout", "--", "."])
+        else:
+            shutil.rmtree(scr, ignore_errors=True)
     return out
 
 
@@ -56,6 +72,7 @@ def main():
     args = sys.argv[1:]
     allc = "--all-checks" in args
     conf = "--confirm" in args
+    in_repo = "--in-repo" in args
     ids = [a for a in args if not a.startswith("--")] or sorted(p.name for p in SEEDED.iterdir() if p.is_dir())
     resf = SEEDED / "RESULTS.json"
     results = json.loads(resf.read_text()) if resf.exists() else {}
@@ -68,7 +85,7 @@ def main():
         if conf:
             rec["confirm"] = confirm(d)
         props = all_props if allc else [meta["property"]]
-        rec.setdefault("checks", {}).update(detect(d, props))
+        rec.setdefault("checks", {}).update(detect(d, props, in_repo))
         own = rec["checks"].get(meta["property"], {})
         rec["detected"] = own.get("exit") == 1
         print(i, meta["property"], "DETECTED" if rec["detected"] else f"missed (exit {own.get('exit')})", own.get("violations", [])[:3],
